@@ -161,7 +161,8 @@ def signature(line, impl_line):
     if inv and scripts:
         hops = C07.handler_ops(scripts[min(len(inv) - 1, len(scripts) - 1)])
         evs = inv[-1]["ops"]
-        if evs and len(evs) < len(hops) and evs[-1][0][0] == 11 and evs[-1][0][1] == 2 and hops[len(evs)][0] in ("write", "flush"):
+        if evs and len(evs) < len(hops) and hops[len(evs)][0] in ("write", "flush") and any(e[0][0] == 11 and e[0][1] == 2 for e in evs):
+            # the handler hangs AT a StreamWriter operation and had dropped a pending read earlier in this invocation
             return "self-deadlock:handler-writes-after-abandoned-read"
     n_end = sum(1 for r in parse_records(wlog)[0] if r[0] == END and r[2][4:5] in ([0], [2], [3]))
     return "deadlock:after-%d-end-requests:handler-%s" % (min(n_end, 1), "active" if len(inv) > n_end else "idle")
